@@ -127,6 +127,35 @@ def write_replay(prop, kind, body):
     return os.path.relpath(path, VERIF)
 
 
+def anchor_digests(prop):
+    """SHA-256 of the source files the property is anchored in (properties.jsonl), as they
+    are in the tree under test now, and which of them differ from the digests recorded
+    when the model was last reconciled with the code (meta/anchor_digests.json).
+    Informational only: it lets a reader see that the code moved even when behaviour did
+    not; it never influences the verdict."""
+    files = []
+    try:
+        for line in open(os.path.join(VERIF, "properties.jsonl")):
+            if line.strip():
+                pr = json.loads(line)
+                if pr["id"] == prop:
+                    files = pr["anchors"]["files"]
+    except Exception:
+        return {}, []
+    now = {}
+    for f in files:
+        try:
+            now[f] = hashlib.sha256(open(os.path.join(REPO, f), "rb").read()).hexdigest()[:16]
+        except OSError:
+            now[f] = "missing"
+    recorded = {}
+    rp = os.path.join(VERIF, "meta", "anchor_digests.json")
+    if os.path.exists(rp):
+        recorded = json.load(open(rp)).get(prop, {})
+    changed = sorted(f for f in now if f in recorded and recorded[f] != now[f])
+    return now, changed
+
+
 def harness_for(prop):
     use_repo()
     return importlib.import_module(f"harness.{prop.lower()}")
@@ -208,10 +237,16 @@ def run_check(prop, tier, seed, replay, no_build=False):
             for (rel, ns, fobs), module in zip(per_file, props_modules):
                 fb = b if (b["ok"] or len(per_file) == 1) else lean.build([module])
                 obs_res += lean.discharged(fobs, rel, fb)
-            if not stage["extract"]["ok"]:
+            gens = stage["extract"].get("generators", {})
+            mine = getattr(mod, "GEN_MODULES", None)
+            if mine is None:
+                mine = [g for g in gens if g.startswith(prop.lower())]
+            failed = [g for g in mine if gens.get(g) is False]
+            if not stage["extract"]["ok"] or failed:
+                # only a generator this property depends on invalidates its obligations
                 for o in obs_res:
                     o["discharged"] = False
-                    o["error"] = "extract.py failed: " + stage["extract"]["log"][-300:]
+                    o["error"] = "extract failed (%s): %s" % (",".join(failed) or "extract.py", stage["extract"]["log"][-300:])
             audit_hits = lean.audit_sources(lean.lean_sources())
             axioms = {}
             if b["ok"]:
@@ -348,6 +383,9 @@ def run_check(prop, tier, seed, replay, no_build=False):
         "notes": ctx.notes,
         "repo": REPO,
     }
+    digests, changed_files = anchor_digests(prop)
+    coverage["anchor_file_digests"] = digests
+    coverage["anchor_files_changed_since_model_reconciled"] = changed_files
     if ctx.exhaustive is not None:
         coverage["exhaustive"] = bool(ctx.exhaustive)
     evidence = {
